@@ -4,7 +4,8 @@
 For each seeded change: the demonstration must pass on the clean tree and fail with the patch;
 then the property's quick check is run with the patch applied to /repo (git apply) and the patch
 is removed straight afterwards (git checkout -- .). Results go to seeded/RESULTS.json.
-usage: seeded_run.py [id ...] [--tier quick|thorough]
+usage: seeded_run.py [id ...] [--tier quick|thorough] [--scratch]
+--scratch: do not touch /repo; use a temporary git worktree of /repo's HEAD (VERIF_REPO), evidence goes to a scratch directory.
 """
 import json
 import os
@@ -29,6 +30,47 @@ def clean_tree():
     return out.strip() == ""
 
 
+def run_scratch(ids, tier, root, results):
+    import shutil
+    import tempfile
+
+    for sid in ids:
+        d = os.path.join(root, sid)
+        meta = json.load(open(os.path.join(d, "meta.json")))
+        patch = os.path.join(d, "patch.diff")
+        wt = tempfile.mkdtemp(prefix=f"seedrun_{sid}_", dir="/tmp")
+        os.rmdir(wt)
+        evd = tempfile.mkdtemp(prefix="seedev_", dir="/tmp")
+        r = {"property": meta["property"], "checks": {}, "mode": "scratch worktree"}
+        try:
+            rc, out = sh(["git", "-C", REPO, "worktree", "add", "--detach", wt, "HEAD"])
+            assert rc == 0, out
+            env = {"PYTHONPATH": wt, "INFOCF_LOGLEVEL": "ERROR"}
+            if meta.get("demo"):
+                r["demo_clean_exit"] = sh([PY, os.path.join(d, meta["demo"])], cwd=wt, env=env)[0]
+            rc, out = sh(["git", "-C", wt, "apply", patch])
+            if rc != 0:
+                r["error"] = "patch does not apply: " + out[-300:]
+            else:
+                if meta.get("demo"):
+                    r["demo_patched_exit"] = sh([PY, os.path.join(d, meta["demo"])], cwd=wt, env=env)[0]
+                for prop in meta.get("checks", [meta["property"]]):
+                    t0 = time.time()
+                    rc, out = sh([PY, os.path.join(VERIF, "harness", "check.py"), prop, "--tier", tier], cwd=VERIF,
+                                 env={"VERIF_SEED": os.environ.get("VERIF_SEED", "0"), "VERIF_REPO": wt, "VERIF_EVIDENCE_DIR": evd})
+                    viol = [l for l in out.split("\n") if l.startswith("VIOLATION")]
+                    r["checks"][prop] = {"exit": rc, "violations": viol[:3], "wall_s": round(time.time() - t0, 1),
+                                         "detected": rc == 1 and bool(viol)}
+                    if rc not in (0, 1):
+                        r["checks"][prop]["tail"] = out[-400:]
+        finally:
+            sh(["git", "-C", REPO, "worktree", "remove", "--force", wt])
+            shutil.rmtree(evd, ignore_errors=True)
+        results[sid] = r
+        print(sid, "demo clean/patched exit:", r.get("demo_clean_exit"), r.get("demo_patched_exit"),
+              "checks:", {p: ("VIOLATION" if c["detected"] else f"exit {c['exit']}") for p, c in r["checks"].items()}, r.get("error", ""))
+
+
 def main():
     args = [a for a in sys.argv[1:] if not a.startswith("--")]
     tier = "quick"
@@ -37,9 +79,14 @@ def main():
         args = [a for a in args if a != tier]
     root = os.path.join(VERIF, "seeded")
     ids = args or sorted(d for d in os.listdir(root) if os.path.isdir(os.path.join(root, d)))
-    assert clean_tree(), "/repo has uncommitted changes to tracked files"
     resp = os.path.join(root, "RESULTS.json")
     results = json.load(open(resp)) if os.path.exists(resp) else {}
+    if "--scratch" in sys.argv:
+        run_scratch(ids, tier, root, results)
+        with open(resp, "w") as fh:
+            json.dump(results, fh, indent=1, sort_keys=True)
+        return
+    assert clean_tree(), "/repo has uncommitted changes to tracked files"
     for sid in ids:
         d = os.path.join(root, sid)
         meta = json.load(open(os.path.join(d, "meta.json")))
